@@ -334,7 +334,9 @@ func (fr *frame) concretizeInBounds(v value, capacity int) value {
 
 // lookup returns x[idx] where x is a map.
 func lookup(fr *frame, instr *ssa.Lookup, x, idx value) value {
-	switch x := x.(type) { // map
+	switch x := x.(type) { // map or string
+	case string, symStr, symStrB:
+		return fr.strIndex(x, idx)
 	case *gomap:
 		if x != nil {
 			fr.sched().recordMapAccess(fr, x, false, instr.Pos())
